@@ -37,6 +37,7 @@ type Op struct {
 	Shared   int             `json:"shared,omitempty"` // 1+index of a shared input buffer
 	Arr      int             `json:"arr,omitempty"`    // readarr: array index
 	Wrap     string          `json:"wrap,omitempty"`   // reader: "", wt, seek, len, rat, bufio, osfile (stream based); bytes, strings, buffer, section, osfile-real (standard types, no fault)
+	Early    bool            `json:"early,omitempty"`  // the result is handed to the slot before the producer calls any accessor on it
 	Reuse    bool            `json:"reuse,omitempty"`  // detect: the caller reuses one buffer (same address) for successive inputs
 	StatSize int             `json:"stat_size,omitempty"` // file / osfile: Stat reports StatSize-1 bytes (0: the accurate size)
 }
@@ -61,6 +62,9 @@ func (o Op) String() string {
 	if o.StatSize > 0 {
 		s += fmt.Sprintf(" stat-size=%d", o.StatSize-1)
 	}
+	if o.Wrap != "" {
+		s += " as " + o.Wrap
+	}
 	if o.FileKind != "" {
 		s += " " + o.FileKind
 	}
@@ -79,6 +83,15 @@ type Plan struct {
 	Arrays   []int          `json:"arrays,omitempty"` // lengths of shared alias backing arrays
 	Slots    int            `json:"slots,omitempty"`
 	MaxSteps int            `json:"max_steps,omitempty"`
+	Traps    bool           `json:"traps,omitempty"` // the plan registers a detector that panics on the poison inputs
+}
+
+// Unjudged says whether the result of an operation is outside what the model
+// states: a detection of a poison input while a trap detector may be registered.
+// (What a detection does when a user-supplied detector panics is not stated -
+// propagate, treat as no match - only that every other operation is unaffected.)
+func (p *Plan) Unjudged(op *Op) bool {
+	return p.Traps && op.In != nil && op.In.Fam == "poison"
 }
 
 // DetCall records one invocation of an extension detector.
@@ -115,6 +128,7 @@ type OpRes struct {
 	Backing     []string
 	BackingLen  int
 	SlotWasSet  bool
+	Panicked    bool // a trap detector's panic came out of the call (the caller recovered)
 	SelfIs      bool // m.Is(m.String()) on a detection result (exercises the accessor; judged only by the race detector)
 }
 
@@ -127,11 +141,12 @@ type opCtx struct {
 type arena struct{ buf []byte }
 
 type slot struct {
-	mu   stdsync.Mutex
-	m    *mimetype.MIME
-	obs  lib.Res
-	from [2]int
-	set  bool
+	mu     stdsync.Mutex
+	m      *mimetype.MIME
+	obs    lib.Res
+	obsSet bool // the producer has looked at the value itself (obs is what it saw)
+	from   [2]int
+	set    bool
 }
 
 // World is the materialised form of a plan.
@@ -302,6 +317,9 @@ func makeDetector(e *model.Ext) func([]byte, uint32) bool {
 					RawOK: c.in != nil && bytes.Equal(raw, lib.Header(c.in, limit))})
 			}
 		}
+		if pred.Traps(raw) {
+			panic(model.DetectorPanic{Ext: id})
+		}
 		return pred.Eval(raw, limit)
 	}
 }
@@ -410,6 +428,9 @@ func (r ratReader) Seek(off int64, whence int) (int64, error) { return r.s.Seek(
 func (r ratReader) ReadAt(p []byte, off int64) (int, error)   { return r.s.ReadAt(p, off) }
 func (r ratReader) Size() int64                               { return int64(len(r.s.Data)) }
 
+// LimitedN is the N of the *io.LimitedReader wrapped around a stream of n bytes by operation oi.
+func LimitedN(n, oi int) int { return n + []int{0, 0, 1, 7}[(n+oi)%4] }
+
 // lenReader additionally offers Len() (like *bytes.Reader, *bytes.Buffer, *strings.Reader).
 type lenReader struct{ s *simio.Stream }
 
@@ -439,6 +460,23 @@ func classify(err error, res *OpRes) {
 
 // Exec runs operation oi of task ti on the calling task.
 func (w *World) Exec(t *core.Task, ti, oi int) {
+	res := &w.Res[ti][oi]
+	defer func() {
+		// the caller recovers from a panic of its own detector and carries on
+		if r := recover(); r != nil {
+			if _, ok := r.(model.DetectorPanic); !ok {
+				panic(r)
+			}
+			res.Panicked = true
+			t.OpReturn(oi)
+			res.Done = true
+			t.Local = nil
+		}
+	}()
+	w.exec(t, ti, oi)
+}
+
+func (w *World) exec(t *core.Task, ti, oi int) {
 	op := &w.Plan.Tasks[ti][oi]
 	res := &w.Res[ti][oi]
 	x := w.Bytes[ti][oi]
@@ -467,6 +505,7 @@ func (w *World) Exec(t *core.Task, ti, oi int) {
 		t.OpInvoke(oi, tag)
 		m := mimetype.Detect(buf)
 		t.OpReturn(oi)
+		w.handOver(t, op, m, ti, oi)
 		res.R = lib.Observe(m)
 		res.SelfIs = m != nil && m.Is(m.String())
 		switch {
@@ -498,6 +537,10 @@ func (w *World) Exec(t *core.Task, ti, oi int) {
 		case "rat":
 			rd = ratReader{s}
 			consumed = func() int { return s.Pos() }
+		case "limited":
+			// an *io.LimitedReader whose N is the length of the stream or a little more: transparent
+			// for a consumer that treats it as any reader (its Read forwards (n, err) verbatim)
+			rd = &io.LimitedReader{R: struct{ io.Reader }{s}, N: int64(LimitedN(len(x), oi))}
 		case "bufio":
 			// a *bufio.Reader handed in by the caller: what counts is what was taken out of
 			// it, not what it read ahead from the stream below
@@ -545,6 +588,7 @@ func (w *World) Exec(t *core.Task, ti, oi int) {
 		t.OpInvoke(oi, tag)
 		m, err := mimetype.DetectReader(rd)
 		t.OpReturn(oi)
+		w.handOver(t, op, m, ti, oi)
 		res.R = lib.Observe(m)
 		classify(err, res)
 		res.Consumed, res.ConsumedSet = consumed(), true
@@ -566,6 +610,7 @@ func (w *World) Exec(t *core.Task, ti, oi int) {
 		t.OpInvoke(oi, tag)
 		m, err := mimetype.DetectFile(path)
 		t.OpReturn(oi)
+		w.handOver(t, op, m, ti, oi)
 		res.R = lib.Observe(m)
 		classify(err, res)
 		w.publish(op, m, res, ti, oi)
@@ -596,9 +641,9 @@ func (w *World) Exec(t *core.Task, ti, oi int) {
 	case "use":
 		sl := &w.slots[op.Slot]
 		sl.mu.Lock()
-		m, obs, set, from := sl.m, sl.obs, sl.set, sl.from
+		m, obs, set, from, obsSet := sl.m, sl.obs, sl.set, sl.from, sl.obsSet
 		sl.mu.Unlock()
-		res.SlotWasSet = set
+		res.SlotWasSet = set && obsSet
 		if set {
 			t.Yield(core.KHandoff, nil, "slot", int64(op.Slot))
 			res.R = lib.Observe(m)
@@ -608,7 +653,7 @@ func (w *World) Exec(t *core.Task, ti, oi int) {
 					_ = p.Is("application/octet-stream")
 				}
 			}
-			res.Same = res.R.Key() == obs.Key()
+			res.Same = !obsSet || res.R.Key() == obs.Key()
 			res.UseOf = from
 		}
 	default:
@@ -619,13 +664,29 @@ func (w *World) Exec(t *core.Task, ti, oi int) {
 }
 
 func (w *World) publish(op *Op, m *mimetype.MIME, res *OpRes, ti, oi int) {
-	if op.Slot <= 0 || op.Slot >= len(w.slots) {
+	if op.Slot <= 0 || op.Slot >= len(w.slots) || op.Early {
+		// (a value handed over early is not published a second time: that would order the
+		// producer's own accessor calls before every later use by somebody else)
 		return
 	}
 	sl := &w.slots[op.Slot]
 	sl.mu.Lock()
-	sl.m, sl.obs, sl.set, sl.from = m, res.R, true, [2]int{ti, oi}
+	sl.m, sl.obs, sl.obsSet, sl.set, sl.from = m, res.R, true, true, [2]int{ti, oi}
 	sl.mu.Unlock()
+}
+
+// handOver publishes a value the producer has NOT looked at yet (a result handed
+// to another goroutine as it came back): whatever the first accessor call does
+// to the value then happens without any ordering between the two callers.
+func (w *World) handOver(t *core.Task, op *Op, m *mimetype.MIME, ti, oi int) {
+	if !op.Early || op.Slot <= 0 || op.Slot >= len(w.slots) {
+		return
+	}
+	sl := &w.slots[op.Slot]
+	sl.mu.Lock()
+	sl.m, sl.obsSet, sl.set, sl.from = m, false, true, [2]int{ti, oi}
+	sl.mu.Unlock()
+	t.Yield(core.KHandoff, nil, "slot-early", int64(op.Slot))
 }
 
 // Observer wiring: the os shim tells us about simulated streams it opens.
